@@ -98,6 +98,21 @@ def stack(S):
     return [node(S, "html", T.HTML, "html")] + [node(S, "e%d" % i) for i in range(k)]
 
 
+def native_builder():
+    from html5lib.treebuilders import getTreeBuilder
+    tb = getTreeBuilder("etree")(True)
+    tb.reset()
+    return tb
+
+
+def native_node(d):
+    import types
+    if d is None:
+        return None
+    d = dict(d)
+    return types.SimpleNamespace(name=d["name"], namespace=d["namespace"], nameTuple=tuple(d["nameTuple"]))
+
+
 def boundary(variant):
     if variant is None:
         return T.SCOPE
@@ -136,6 +151,12 @@ class ElementInScope:
         return dict(self=tb, nodes=S.list(nodes), target=S.str("target"),
                     variant=S.one_of(None, "button", "list", "table", "select"))
 
+    def call(i):
+        tb, nodes = native_builder(), [native_node(x) for x in i["nodes"]]
+        tb.openElements.extend(nodes)
+        i["nodes"], i["self"] = list(nodes), tb
+        return tb.elementInScope(i["target"], i["variant"])
+
     @requires
     def no_template_on_the_stack(nodes):
         # known finding C01-template-unsupported: html5lib's scope sets lack (html, template)
@@ -171,6 +192,12 @@ class ElementInActiveFormattingElements:
         tb = builder(S)
         tb.fields["activeFormattingElements"] = S.list(items)
         return dict(self=tb, items=S.list(items), name=S.str("name"))
+
+    def call(i):
+        tb, items = native_builder(), [native_node(x) for x in i["items"]]
+        tb.activeFormattingElements.extend(items)
+        i["items"], i["self"] = list(items), tb
+        return tb.elementInActiveFormattingElements(i["name"])
 
     @ensures("C01")
     @bounded("lists of active formatting elements with at most 4 entries, each a marker or an element of any name")
